@@ -317,8 +317,13 @@ def nat_deduper(h):
         def __iter__(self):
             return iter(self.rows)
     keys = ['a', 'b', 'c']
-    vals = [None, 0, 1, 'x', '']
-    for _ in range(h.n()):
+    import decimal, datetime
+    # (value kinds that set_type / load put into rows: equal numbers written differently are ONE key, instants that differ below
+    # the second are TWO; 1 / 1.0 / True and the other cross-type equalities of Python stay out of the pool)
+    kinds = [decimal.Decimal('1.0'), decimal.Decimal('1.00'), decimal.Decimal('2.5'), datetime.datetime(2020, 1, 1, 0, 0, 0, 5),
+             datetime.datetime(2020, 1, 1, 0, 0, 0, 7), datetime.date(2020, 1, 1), datetime.time(1, 2, 3, 4), datetime.time(1, 2, 3, 9), 'x', None]
+    for t in range(h.n()):
+        vals = [None, 0, 1, 'x', ''] if t % 3 else kinds
         pk = h.subset(keys, 0.5)
         if h.rng.random() < 0.2:
             pk = h.rng.choice(keys)          # Table Schema: a single-field key may be given as a string
